@@ -315,6 +315,34 @@ func (vc *VC) resolveAtHeader(fr *frame, l *LoopInfo, hdr, envNode *Node, phiVal
 		}
 		return Val{}, false
 	}
+	// $i<k>: completed iterations of the enclosing range loop with ordinal k
+	if strings.HasPrefix(name, "$i") && len(name) > 2 {
+		var k int
+		if _, err := fmt.Sscanf(name[2:], "%d", &k); err == nil {
+			for _, ol := range fr.loops {
+				if ol.ordinal != k {
+					continue
+				}
+				for _, in := range ol.header.Instrs {
+					phi, ok := in.(*ssa.Phi)
+					if !ok {
+						break
+					}
+					if phi.Comment == "rangeindex" {
+						if ol == l {
+							if v, ok := phiVals[phi]; ok {
+								return Val{T: e.add(v.T, "1"), Typ: phi.Type()}, true
+							}
+						}
+						if v, ok := envNode.env[phi]; ok {
+							return Val{T: e.add(v.T, "1"), Typ: phi.Type()}, true
+						}
+					}
+				}
+			}
+		}
+		return Val{}, false
+	}
 	// phi by source name at this header
 	for phi, v := range phiVals {
 		if phi.Comment == name {
